@@ -5,6 +5,7 @@ import (
 	"go/constant"
 	"go/token"
 	"go/types"
+	"os"
 	"sort"
 	"strings"
 
@@ -25,6 +26,16 @@ type PathState struct {
 	consts  map[ssa.Value]*ssa.Const
 	parent  *PathState
 	via     string
+	dead    map[ssa.Value]int
+	q       *PathQ
+}
+
+// factUse notes that a rule callback consulted the path's learned facts (anything beyond Has): the cheap first pass
+// of Find, which does not learn such facts, is then not a substitute for the full search.
+func (s *PathState) factUse() {
+	if s != nil && s.q != nil && s.q.light {
+		s.q.factDependent = true
+	}
 }
 
 // Has reports whether v is (derived from) the tracked value on this path.
@@ -101,12 +112,51 @@ func learnNil(st *PathState, cond ssa.Value, truth bool) {
 	}
 }
 
+// learnBool records the outcome of a branch on a boolean value that is tested again elsewhere (`_, ok := m[k]; if !ok {…}; …;
+// if ok {…}`): an SSA value keeps its content until its instruction runs again (Find kills the fact then), so the
+// second test must agree with the first. Values tested only once are not recorded (keeps the state space small).
+func learnBool(st *PathState, cond ssa.Value, truth bool) {
+	for {
+		u, ok := cond.(*ssa.UnOp)
+		if !ok || u.Op != token.NOT {
+			break
+		}
+		cond, truth = u.X, !truth
+	}
+	if _, isC := cond.(*ssa.Const); isC {
+		return
+	}
+	if _, isPhi := cond.(*ssa.Phi); isPhi {
+		return // phis are re-bound by enter; their selected operand is tracked separately
+	}
+	if !testedTwice(cond) {
+		return
+	}
+	if _, had := st.consts[cond]; had {
+		return
+	}
+	st.consts[cond] = BoolConst(truth)
+}
+
+var testedTwiceCache = map[ssa.Value]bool{}
+
+// testedTwice: more than one If is controlled by v (directly or through NOT).
+func testedTwice(v ssa.Value) bool {
+	if r, ok := testedTwiceCache[v]; ok {
+		return r
+	}
+	r := len(branchesOn(v, true)) >= 2
+	testedTwiceCache[v] = r
+	return r
+}
+
 // NonNil reports whether v is known to be non-nil on this path (tracked custody values, freshly boxed values, values
 // a branch on the path found non-nil, and phis that selected such a value).
 func (s *PathState) NonNil(v ssa.Value) bool {
 	if s == nil || v == nil {
 		return false
 	}
+	s.factUse()
 	if KnownNonNil(v) {
 		return true
 	}
@@ -133,6 +183,7 @@ var nonNilMarker = ssa.NewConst(constant.MakeString("!nil"), types.Typ[types.Str
 
 // Selected resolves a boolean or error phi to the operand it took on this path (v itself otherwise).
 func (s *PathState) Selected(v ssa.Value) ssa.Value {
+	s.factUse()
 	for i := 0; i < 6; i++ {
 		phi, ok := v.(*ssa.Phi)
 		if !ok || s == nil {
@@ -150,6 +201,7 @@ func (s *PathState) Selected(v ssa.Value) ssa.Value {
 // FactsOnEdge is an.FactsOnEdge refined by the path: when the branch tests a boolean phi (a condition computed as a
 // value, `ok := a || b; if ok {…}`), the operand the phi took on this path is what the branch decided.
 func (s *PathState) FactsOnEdge(e Edge) []Fact {
+	s.factUse()
 	out := FactsOnEdge(e)
 	if s == nil || len(e.From.Instrs) == 0 || len(e.From.Succs) != 2 || e.From.Succs[0] == e.From.Succs[1] {
 		return out
@@ -182,6 +234,11 @@ func (s *PathState) CmpsOnEdge(e Edge) []Cmp {
 
 // Marked reports whether v is one of the query's Marked values or a phi that selected one on this path.
 func (s *PathState) Marked(v ssa.Value) bool {
+	s.factUse()
+	return s.isMarked(v)
+}
+
+func (s *PathState) isMarked(v ssa.Value) bool {
 	for i := 0; i < 6 && v != nil; i++ {
 		if s.marked[v] {
 			return true
@@ -199,12 +256,27 @@ func (s *PathState) Marked(v ssa.Value) bool {
 }
 
 func (s *PathState) ConstOf(v ssa.Value) (*ssa.Const, bool) {
+	s.factUse()
+	return s.constOf(v)
+}
+
+func (s *PathState) constOf(v ssa.Value) (*ssa.Const, bool) {
 	if c, ok := v.(*ssa.Const); ok {
 		return c, true
 	}
 	c, ok := s.consts[v]
+	if !ok && DebugDead != nil {
+		if b, was := s.dead[v]; was {
+			if !debugSeen[v] {
+				debugSeen[v] = true
+				fmt.Fprintf(os.Stderr, "deadquery %s (pruned at block %d) queried in block %d: %s\n", v.Name(), b, s.block.Index, v.String())
+			}
+		}
+	}
 	return c, ok
 }
+
+var debugSeen = map[ssa.Value]bool{}
 
 func (s *PathState) sig() string {
 	var parts []string
@@ -238,6 +310,10 @@ type PathQ struct {
 	CutEdge    func(e Edge, st *PathState) bool
 	Marked     []ssa.Value // values whose flow through phis is followed without any nil-ness assumption (PathState.Marked)
 	NoFold     bool        // disable branch folding on the tracked value
+	NoPrune    bool        // keep facts about dead values (debugging)
+	FullOnly   bool        // skip the light first pass
+	light, factDependent bool
+	initial              map[ssa.Value]bool // the query's own Tracked/Marked/Consts keys: identities, never pruned
 	AllConsts  bool        // record the constant selected for every phi (not only branch-relevant ones)
 	// TrackedNonNil: tracked values are known non-nil / non-empty (custody rules). Default true when Tracked != nil.
 }
@@ -249,11 +325,29 @@ type Hop struct {
 }
 
 // Find runs the query. found=true means a violating path exists; witness describes it.
+//
+// Two passes. The first ("light") learns nothing from the branches it takes beyond what the tracked object and constant
+// phi operands say; it therefore folds fewer branches and explores a superset of the paths of the full search. If the rule's
+// callbacks never consulted learned facts (only Has and the shape of instructions) and the light pass finds no path, the
+// full search cannot find one either, and the light result is final. Otherwise the full, path-sensitive search decides.
 func (q *PathQ) Find() (witness []string, found bool) {
+	if !q.FullOnly && os.Getenv("VERIF_FULLONLY") == "" {
+		q.light, q.factDependent = true, false
+		_, f := q.find()
+		dep := q.factDependent
+		q.light, q.factDependent = false, false
+		if !f && !dep {
+			return nil, false
+		}
+	}
+	return q.find()
+}
+
+func (q *PathQ) find() (witness []string, found bool) {
 	seen := map[string]bool{}
 	var stack []*PathState
 	mk := func(b *ssa.BasicBlock, idx int, parent *PathState, via string) *PathState {
-		st := &PathState{block: b, idx: idx, tracked: map[ssa.Value]bool{}, marked: map[ssa.Value]bool{}, consts: map[ssa.Value]*ssa.Const{}, alias: map[*ssa.Phi]ssa.Value{}, parent: parent, via: via}
+		st := &PathState{block: b, idx: idx, tracked: map[ssa.Value]bool{}, marked: map[ssa.Value]bool{}, consts: map[ssa.Value]*ssa.Const{}, alias: map[*ssa.Phi]ssa.Value{}, parent: parent, via: via, q: q}
 		if parent != nil {
 			for k, v := range parent.alias {
 				st.alias[k] = v
@@ -267,6 +361,12 @@ func (q *PathQ) Find() (witness []string, found bool) {
 			for k, v := range parent.consts {
 				st.consts[k] = v
 			}
+			if parent.dead != nil {
+				st.dead = map[ssa.Value]int{}
+				for k, v := range parent.dead {
+					st.dead[k] = v
+				}
+			}
 		}
 		return st
 	}
@@ -277,6 +377,16 @@ func (q *PathQ) Find() (witness []string, found bool) {
 		}
 		seen[k] = true
 		stack = append(stack, st)
+	}
+	q.initial = map[ssa.Value]bool{}
+	for _, v := range q.Tracked {
+		q.initial[v] = true
+	}
+	for _, v := range q.Marked {
+		q.initial[v] = true
+	}
+	for v := range q.Consts {
+		q.initial[v] = true
 	}
 	initTracked := func(st *PathState) {
 		for _, v := range q.Tracked {
@@ -310,9 +420,49 @@ func (q *PathQ) Find() (witness []string, found bool) {
 		q.enter(st, e.From)
 		push(st)
 	}
+	nstates := 0
+	if os.Getenv("VERIF_NOPRUNE") != "" {
+		q.NoPrune = true
+	}
+	if os.Getenv("VERIF_PATHSTATS") != "" {
+		if DebugDead == nil {
+			DebugDead = map[ssa.Value]int{}
+		}
+		for _, m := range LiveSanity(q.Fn) {
+			fmt.Fprintln(os.Stderr, "livesanity", q.Fn.Name(), m)
+		}
+		defer func() {
+			if nstates > 2000 {
+				fmt.Fprintf(os.Stderr, "pathstats %s: %d states\n", q.Fn.Name(), nstates)
+			}
+		}()
+	}
 	for len(stack) > 0 {
 		st := stack[len(stack)-1]
 		stack = stack[:len(stack)-1]
+		nstates++
+		if nstates == 300000 && os.Getenv("VERIF_PATHSTATS") != "" {
+			cnt := map[int]int{}
+			ex := map[int][]string{}
+			for k := range seen {
+				var bi, ii int
+				fmt.Sscanf(k, "%d:%d|", &bi, &ii)
+				cnt[bi]++
+				if len(ex[bi]) < 6 {
+					ex[bi] = append(ex[bi], k)
+				}
+			}
+			best, bn := -1, 0
+			for b, n := range cnt {
+				if n > bn {
+					best, bn = b, n
+				}
+			}
+			fmt.Fprintf(os.Stderr, "pathstats: most populated block %d with %d states, e.g.\n", best, bn)
+			for _, k := range ex[best] {
+				fmt.Fprintln(os.Stderr, "   ", k)
+			}
+		}
 		b := st.block
 		cut := false
 		for i := st.idx; i < len(b.Instrs); i++ {
@@ -326,6 +476,7 @@ func (q *PathQ) Find() (witness []string, found bool) {
 				if _, had := st.consts[v]; had && q.Consts[v] == nil {
 					delete(st.consts, v)
 				}
+				delete(st.dead, v)
 			}
 			if q.Cut != nil && q.Cut(in, st) {
 				cut = true
@@ -366,10 +517,16 @@ func (q *PathQ) Find() (witness []string, found bool) {
 			// what the branch just taken says about nil-ness: `x != nil` / `x == nil`
 			if len(b.Succs) == 2 && b.Succs[0] != b.Succs[1] && !q.NoFold {
 				if ifi, ok := b.Instrs[len(b.Instrs)-1].(*ssa.If); ok {
-					learnNil(ns, ifi.Cond, s == b.Succs[0])
+					if !q.light {
+						learnNil(ns, ifi.Cond, s == b.Succs[0])
+						learnBool(ns, ifi.Cond, s == b.Succs[0])
+					}
 				}
 			}
 			q.enter(ns, b)
+			if !q.NoPrune {
+				pruneDead(ns, q)
+			}
 			push(ns)
 		}
 	}
@@ -405,12 +562,12 @@ func (q *PathQ) enter(st *PathState, pred *ssa.BasicBlock) {
 		}
 		op := phi.Edges[pi]
 		u := upd{phi: phi}
-		u.marked = st.Marked(op)
+		u.marked = st.isMarked(op)
 		isBool := false
 		if b, ok := phi.Type().Underlying().(*types.Basic); ok && b.Kind() == types.Bool {
 			isBool = true
 		}
-		if isBool || IsErrorType(phi.Type()) {
+		if (isBool || IsErrorType(phi.Type())) && !q.light {
 			if _, isC := op.(*ssa.Const); !isC {
 				u.alias = op
 				if ph2, ok := op.(*ssa.Phi); ok {
@@ -422,9 +579,9 @@ func (q *PathQ) enter(st *PathState, pred *ssa.BasicBlock) {
 		}
 		if st.Has(op) {
 			u.tracked = true
-		} else if c, ok := st.ConstOf(op); ok && (q.AllConsts || branchRelevant(phi)) {
+		} else if c, ok := st.constOf(op); ok && (q.AllConsts || branchRelevant(phi)) {
 			u.c = c
-		} else if KnownNonNil(op) && (q.AllConsts || branchRelevant(phi)) {
+		} else if !q.light && KnownNonNil(op) && (q.AllConsts || branchRelevant(phi)) {
 			u.c = nonNilMarker
 		}
 		upds = append(upds, u)
@@ -453,7 +610,7 @@ func (s *PathState) evalBool(v ssa.Value, depth int) (val, known bool) {
 	if depth > 6 {
 		return false, false
 	}
-	if c, ok := s.ConstOf(v); ok && c.Value != nil {
+	if c, ok := s.constOf(v); ok && c.Value != nil {
 		if c.Value.Kind() == constant.Bool {
 			return constant.BoolVal(c.Value), true
 		}
@@ -483,10 +640,10 @@ func (s *PathState) evalBool(v ssa.Value, depth int) (val, known bool) {
 				if KnownNonNil(other) {
 					return x.Op == token.NEQ, true
 				}
-				if c, ok := s.ConstOf(other); ok && c == nonNilMarker {
+				if c, ok := s.constOf(other); ok && c == nonNilMarker {
 					return x.Op == token.NEQ, true
 				}
-				if c, ok := s.ConstOf(other); ok && c.Value == nil {
+				if c, ok := s.constOf(other); ok && c.Value == nil {
 					return x.Op == token.EQL, true
 				}
 				return false, false
@@ -511,7 +668,7 @@ func (s *PathState) evalBool(v ssa.Value, depth int) (val, known bool) {
 						return false, true
 					}
 				}
-				if c, ok := s.ConstOf(arg); ok && c.Value == nil {
+				if c, ok := s.constOf(arg); ok && c.Value == nil {
 					switch x.Op {
 					case token.NEQ, token.GTR:
 						return false, true
